@@ -355,6 +355,8 @@ func main() {
 	g.malformed(thorough)
 	g.homeNS(thorough)
 	g.histories(thorough)
+	g.errorPaths(thorough)
+	g.optionalConfig(thorough)
 	g.goOnly(thorough)
 	g.concurrent(thorough)
 	if thorough || os.Getenv("VERIF_C16_RACE") == "1" {
